@@ -5,9 +5,11 @@ package csproto
 import (
 	"errors"
 	"fmt"
+	"reflect"
 	"sync"
 
 	gogotypes "github.com/gogo/protobuf/types"
+	"google.golang.org/protobuf/proto"
 	"google.golang.org/protobuf/types/known/wrapperspb"
 )
 
@@ -307,8 +309,9 @@ func H_C11_Clone() {
 	case MessageTypeGoogle:
 		if !verifNative() {
 			verifAssert(verifCalled("google.golang.org/protobuf/proto.Clone"), "a v2 message is cloned by the v2 runtime")
-		} else if k == c11V2 {
-			verifAssert(Equal(r, m), "native: the clone equals the original")
+		} else if k == c11V2 || k == c11TypedNilV2 {
+			want := proto.Clone(m.(proto.Message))
+			verifAssert2(reflect.TypeOf(r) == reflect.TypeOf(want), Equal(r, m), "native: the clone is what the owning runtime's Clone returns (same dynamic type, typed nil included) and equals the original")
 		}
 	case MessageTypeGogo:
 		if !verifNative() {
